@@ -509,7 +509,8 @@ type stressResult struct {
 	LostOps []string `json:"lost_ops,omitempty"` // the op set of the first such trial
 	Held    int      `json:"held"`               // trials after which the round mutex was left locked
 	HeldOps []string `json:"held_ops,omitempty"`
-	Hang    bool     `json:"hang"` // an operation did not return within the watchdog time
+	Wiped   int      `json:"wiped"` // restart-loop trials: the round fell below Share / lost its block / accepted a Restart after AddNotarizedBlock returned
+	Hang    bool     `json:"hang"`  // an operation did not return within the watchdog time
 	HangOps []string `json:"hang_ops,omitempty"`
 	HangAt  int      `json:"hang_at,omitempty"`
 }
@@ -556,7 +557,7 @@ func stressChild(d time.Duration, mixes [][]string) {
 			}
 		}
 	}()
-	per := d / time.Duration(len(mixes))
+	per := d / time.Duration(len(mixes)+1)
 	for mi := range mixes {
 		mix := mixes[mi]
 		curMix.Store(&mix)
@@ -632,6 +633,53 @@ func stressChild(d time.Duration, mixes [][]string) {
 		}
 		stop.Store(true)
 	}
+	// one goroutine loops Restart, another calls AddNotarizedBlock once
+	{
+		mix := []string{"restart-loop", "notarized"}
+		curMix.Store(&mix)
+		end := time.Now().Add(per)
+		for time.Now().Before(end) {
+			for k := 0; k < 200; k++ {
+				r := round.NewRound(3)
+				b := block.NewBlock("", 3)
+				b.Hash = fmt.Sprintf("%064x", res.Trials+1)
+				var ready, anbDone, fin, lateAccepted atomic.Int64
+				go func() {
+					ready.Add(1)
+					for ready.Load() < 2 {
+					}
+					for anbDone.Load() == 0 {
+						_ = r.Restart()
+					}
+					for i := 0; i < 3; i++ { // these start after AddNotarizedBlock returned
+						if r.Restart() == nil {
+							lateAccepted.Add(1)
+						}
+					}
+					fin.Add(1)
+				}()
+				go func() {
+					ready.Add(1)
+					for ready.Load() < 2 {
+					}
+					for i := 0; i < k%64; i++ { // vary the moment of the call
+						_ = r.GetPhase()
+					}
+					r.AddNotarizedBlock(b)
+					anbDone.Store(1)
+					fin.Add(1)
+				}()
+				for fin.Load() < 2 {
+					runtime.Gosched()
+				}
+				res.Trials++
+				progress.Add(1)
+				if lateAccepted.Load() > 0 || r.GetPhase() < round.Share || len(r.GetNotarizedBlocks()) != 1 {
+					res.Wiped++
+				}
+			}
+		}
+	}
 	emit()
 }
 
@@ -655,7 +703,7 @@ func stress(d time.Duration, only []string) stressResult {
 }
 
 func reportStress(rep *vh.Report, res stressResult) {
-	rep.Note("concurrent stress in a child process (SetPhase calls and AddNotarizedBlock released together on fresh rounds): %d trials, %d ended below the greatest requested phase, %d left the mutex locked, hang=%v", res.Trials, res.Lost, res.Held, res.Hang)
+	rep.Note("concurrent stress in a child process (SetPhase calls and AddNotarizedBlock released together on fresh rounds, and Restart looping against one AddNotarizedBlock): %d trials, %d ended below the greatest requested phase, %d left the mutex locked, %d restart-after-sharing, hang=%v", res.Trials, res.Lost, res.Held, res.Wiped, res.Hang)
 	rep.CountN("stress-trials", res.Trials)
 	if res.Hang {
 		rep.Violate("C37:operation-does-not-return",
@@ -666,6 +714,11 @@ func reportStress(rep *vh.Report, res stressResult) {
 		rep.Violate("C37:phase-lost-update",
 			fmt.Sprintf("concurrent %v all returned and the phase is below the greatest requested phase in %d of %d trials", res.LostOps, res.Lost, res.Trials),
 			hist{Kind: "stress", Stress: res.LostOps})
+	}
+	if res.Wiped > 0 {
+		rep.Violate("C37:restart-after-sharing-accepted",
+			fmt.Sprintf("Restart looping against one AddNotarizedBlock: after AddNotarizedBlock returned a Restart was accepted, or the round fell below Share, or lost its notarized block, in %d trials", res.Wiped),
+			hist{Kind: "stress", Stress: []string{"restart-loop", "notarized"}})
 	}
 	if res.Held > 0 {
 		rep.Violate("C37:lock-left-held-after-concurrent-ops",
@@ -681,6 +734,9 @@ func main() {
 		mixes := stressMixes
 		if ops := os.Getenv("VERIF_ROUNDSM_STRESS_OPS"); ops != "" {
 			mixes = [][]string{strings.Split(ops, ",")}
+			if strings.HasPrefix(ops, "restart-loop") {
+				mixes = nil // only the Restart loop against AddNotarizedBlock
+			}
 		}
 		stressChild(time.Duration(n)*time.Millisecond, mixes)
 		return
